@@ -43,6 +43,7 @@ def run_U(chk, prefixes, rule1="U1", rule2="U2", floor1=40, floor2=10):
     run_U4(chk, prefixes, floor=max(1, floor1))
     run_U5(chk, prefixes)
     run_U6(chk, prefixes)
+    run_U7(chk, prefixes)
     chk.rule(rule1, "every parameter is read by the function that declares it (nothing the caller supplies is silently ignored)", floor=floor1)
     chk.rule(rule2, "every name bound by unpacking a tuple is read", floor=floor2)
     for f in prog.all_funcs():
@@ -259,6 +260,53 @@ def run_U6(chk, prefixes, rule="U6"):
                     f"entries stored by an earlier, unrelated call are still there (e.g. stale Hessenberg entries of a previous Krylov run)")
         if not hits:
             chk.ok(rule, f, f"{f.short}: defaults are not written", sample=False)
+
+
+# ------------------------------------------------------------------ U7 optional transformation applied on every returning path
+def run_U7(chk, prefixes, rule="U7"):
+    """An optional argument P (default None) that is applied to the operands by `if P is not None: X = g(X, P)` must have been applied on
+    every path that returns a result built from X when P is given: a shortcut `if <trivial case>: return X[0]` placed in front of the
+    application returns the operand un-transformed exactly for the callers that pass P (add(a, amplitudes=[c]) returning a)."""
+    from ..core.cfg import CFG, NOTNONE
+    prog = chk.prog
+    chk.rule(rule, "an optional argument that transforms the operands is applied on every path that returns them", floor=0)
+    for f in prog.all_funcs():
+        if not f.module.name.startswith(tuple(prefixes)) or "torch" in f.module.name:
+            continue
+        fn = f.node
+        a = fn.args
+        names = [x.arg for x in a.posonlyargs + a.args + a.kwonlyargs]
+        dmap = dict(zip([x.arg for x in (a.posonlyargs + a.args)[len(a.posonlyargs + a.args) - len(a.defaults):]], a.defaults))
+        dmap.update({x.arg: d for x, d in zip(a.kwonlyargs, a.kw_defaults) if d is not None})
+        opt = [p_ for p_, d in dmap.items() if isinstance(d, ast.Constant) and d.value is None]
+        operands = set(names) | ({a.vararg.arg} if a.vararg else set())
+        if not opt:
+            continue
+        cfg = None
+        for p_ in opt:
+            apps = []
+            for n in A.walk_local(fn, include_self=False):
+                if isinstance(n, ast.If) and isinstance(n.test, ast.Compare) and len(n.test.ops) == 1 and isinstance(n.test.ops[0], ast.IsNot) \
+                        and isinstance(n.test.left, ast.Name) and n.test.left.id == p_ and isinstance(n.test.comparators[0], ast.Constant) and n.test.comparators[0].value is None:
+                    for st in ast.walk(ast.Module(body=n.body, type_ignores=[])):
+                        if isinstance(st, ast.Assign) and isinstance(st.targets[0], ast.Name) and st.targets[0].id in operands and st.targets[0].id != p_ \
+                                and any(isinstance(x, ast.Name) and x.id == p_ for x in ast.walk(st.value)) \
+                                and any(isinstance(x, ast.Name) and x.id == st.targets[0].id for x in ast.walk(st.value)):
+                            apps.append(st)
+            if not apps:
+                continue
+            cfg = cfg or CFG(fn)
+            g = cfg.specialised({p_: NOTNONE})
+            live = g.reach_from({g.entry.id})
+            X = apps[0].targets[0].id
+            rets = [r for r in A.returns_of(fn) if r.value is not None and r in cfg.node_of and cfg.node_of[r].id in live
+                    and any(isinstance(x, ast.Name) and x.id == X for x in ast.walk(r.value))]
+            for r in rets:
+                ok = g.must_pass([r], [s_ for s_ in apps if s_ in cfg.node_of])
+                chk.verdict(rule, (f, r), f"{f.short}: `{A.short(r, 40)}` after `{p_}` was applied to `{X}`", True if ok else False,
+                            f"{f.short}(): with `{p_}` given, `{A.short(r, 40)}` can be reached without `{A.short(apps[0], 60)}`: the operand is returned "
+                            f"without the transformation the caller asked for (e.g. a one-term linear combination add(a, amplitudes=[c]) returns a, "
+                            f"not c*a -- the Krylov solvers produce exactly this call when the Krylov space has dimension 1)")
 
 
 # ------------------------------------------------------------------ U5 option-resolving self-delegation
